@@ -9,3 +9,4 @@ import AcryoVerif.Props.C07
 import AcryoVerif.Props.C09
 import AcryoVerif.Props.C17
 import AcryoVerif.Props.C15
+import AcryoVerif.Props.C12
